@@ -78,6 +78,14 @@ func checkPlan(c planCase, o *pbt.Rec) pbt.Verdict {
 		}
 		idsDefault := map[int]bool{}
 		nontrivial := false
+		// the planner's own dependency edges: the tree without de-duplication and without
+		// multi-fetch merging carries every planned fetch with its own dependencies
+		var rawLeaves map[int]*ftree.Leaf
+		if p, err := gws["nodedupe"].Plan(op); err == nil {
+			if sp, ok := p.(*plan.SynchronousResponsePlan); ok && sp.Response != nil && sp.Response.Fetches != nil {
+				rawLeaves, _, _ = ftree.Leaves(sp.Response.Fetches)
+			}
+		}
 		for _, name := range names {
 			p, err := gws[name].Plan(op)
 			if err != nil {
@@ -96,6 +104,37 @@ func checkPlan(c planCase, o *pbt.Rec) pbt.Verdict {
 			}
 			if len(dangling) > 0 {
 				o.Label("dangling-dependency-ids:" + name)
+			}
+			if rawLeaves != nil && name != "nodedupe" {
+				// every planned edge d -> f must still be honoured by the fetches that carry d and
+				// f now (the surviving duplicate, the multi-entity fetch they were merged into)
+				var originals []int
+				for id := range rawLeaves {
+					originals = append(originals, id)
+				}
+				sort.Ints(originals)
+				cont := ftree.Container(root, originals, func(absent, present int) bool {
+					a, b := rawLeaves[absent], rawLeaves[present]
+					return a != nil && b != nil && b.Item.EqualSingleFetch(a.Item)
+				})
+				for _, f := range originals {
+					for _, d := range rawLeaves[f].Deps {
+						cf, okf := cont[f]
+						cd, okd := cont[d]
+						if !okf || !okd {
+							o.Label("edge-endpoint-not-located:" + name)
+							continue
+						}
+						if cf == cd {
+							continue
+						}
+						if !ftree.Before(root, cd, cf) {
+							return pbt.Bad("option set %s: planned fetch %d reads results of planned fetch %d, but the fetch that carries it now (%d) is not ordered after the one that carries %d (%d): %s\ntree without merging: %s\noperation[%d]: %s",
+								name, f, d, cf, d, cd, ftree.Dump(root), dumpLeaves(rawLeaves), i, op.Query)
+						}
+						o.Label("planned-edge-checked-through-merge")
+					}
+				}
 			}
 			leaves, _, _ := ftree.Leaves(root)
 			edges := 0
@@ -133,4 +172,17 @@ func checkPlan(c planCase, o *pbt.Rec) pbt.Verdict {
 		o.Sub(key)
 	}
 	return pbt.OK
+}
+
+func dumpLeaves(l map[int]*ftree.Leaf) string {
+	var ids []int
+	for id := range l {
+		ids = append(ids, id)
+	}
+	sort.Ints(ids)
+	var parts []string
+	for _, id := range ids {
+		parts = append(parts, fmt.Sprintf("%d%v", id, l[id].Deps))
+	}
+	return strings.Join(parts, " ")
 }
